@@ -23,6 +23,8 @@ type Breaker struct {
 	Old    string // must occur exactly once in File (else the breaker is reported stale and skipped)
 	New    string
 	Expect string // substring that must appear in the child's report (rule id or key)
+	// optional second edit in the same file
+	Old2, New2 string
 }
 
 var breakers = map[string][]Breaker{}
@@ -39,6 +41,15 @@ type BreakerResult struct {
 // RunBreakers executes the breakers of the context's property and records the outcome.
 func RunBreakers(c *core.Ctx, self string) []BreakerResult {
 	bs := breakers[c.Property]
+	if f := os.Getenv("LEDGERLINT_BREAKER"); f != "" {
+		var sel []Breaker
+		for _, b := range bs {
+			if strings.Contains(b.Name, f) {
+				sel = append(sel, b)
+			}
+		}
+		bs = sel
+	}
 	if len(bs) == 0 {
 		return nil
 	}
@@ -66,6 +77,13 @@ func RunBreakers(c *core.Ctx, self string) []BreakerResult {
 				return
 			}
 			mut := strings.Replace(string(src), b.Old, b.New, 1)
+			if b.Old2 != "" {
+				if strings.Count(mut, b.Old2) != 1 {
+					res.Status = "stale"
+					return
+				}
+				mut = strings.Replace(mut, b.Old2, b.New2, 1)
+			}
 			mf := filepath.Join(scratch, fmt.Sprintf("b%d_%s", i, filepath.Base(b.File)))
 			if err := os.WriteFile(mf, []byte(mut), 0o644); err != nil {
 				res.Status = "stale"
